@@ -196,3 +196,28 @@ Theorem C17_tables_are_source :
      Muxer_generatePMT calc_descriptor_length calc_pmt_section_length g_wpsi g_wpkt ps pmt upd ver cc mb buf).
 Proof. exact mux_tables_are_source. Qed.
 Print Assumptions C17_tables_are_source.
+
+(* program_map.go is regenerated too (Gen/RestGen.v, go/gen/restgen.go).  NewMuxer instantiated with the REGENERATED
+   newProgramMap / setUnlocked (the map[uint32]uint16 as the association list gpm of Proofs/MuxGenEq.v) builds every field
+   as the model's initial state does, with m.pm = {p := [(pmtStartPID, programNumberStart)]}; the regenerated
+   toPATDataUnlocked in list order is to_pat on every map whose keys are PIDs; and in WHATEVER order the runtime enumerates
+   the map (any permutation), the PAT of a Muxer's one-entry map is pat_data and generatePAT reading the map through the
+   regenerated function is the generatePAT of the theorems above. *)
+Require Import Gen.RestGen Proofs.RestGenPm Proofs.RestGenPmMux Coq.Sorting.Permutation.
+Theorem C17_program_map_is_source :
+  (forall (W : Type) (w : W) opts,
+     NewMuxer [] [] (newProgramMap lm_make) (programMap_setUnlocked lm_set) w opts =
+     new_view_pm w (new_muxer (opts_period opts 40))) /\
+  (forall pm, Forall (fun e => 0 <= fst e < 65536) pm ->
+     programMap_toPATDataUnlocked lm_range (mk_programMap pm) = to_pat pm) /\
+  (forall rng, (forall m, Permutation (rng m) m) ->
+     programMap_toPATDataUnlocked rng (mk_programMap mux_pm) = pat_data /\
+     forall wpsi wpkt ps u v cc pb buf,
+       Muxer_generatePAT (programMap_toPATDataUnlocked rng) wpsi wpkt ps (mk_programMap mux_pm) u v cc pb buf =
+       Muxer_generatePAT to_pat wpsi wpkt ps mux_pm u v cc pb buf).
+Proof. exact program_map_mux_is_generated. Qed.
+Print Assumptions C17_program_map_is_source.
+Example C17_program_map_is_source_inhabited :
+  programMap_toPATDataUnlocked lm_range (programMap_setUnlocked lm_set (newProgramMap lm_make) C_pmtStartPID C_programNumberStart)
+  = pat_data.
+Proof. exact program_map_mux_example. Qed.
